@@ -355,6 +355,7 @@ class ModuleNormalizer:
                 if not self._inline_calls(q, node, cls):
                     break
             self._drop_unused_nested(q, node)
+            self._split_tuple_assigns(q, node)
             self._loops_to_comprehensions(q, node)
             self._inline_aliases(q, node)
 
@@ -520,6 +521,26 @@ class ModuleNormalizer:
                                 stmts.append(ast.Pass())
                             self.log.append(f"{q}: removed inlined nested helper {s_.name}")
 
+    def _split_tuple_assigns(self, q: str, node):
+        frozen = set(self.fn.get(q, []))
+        for parent in [node] + [n for n in _own_nodes(node) if not isinstance(n, (ast.FunctionDef, ast.AsyncFunctionDef, ast.ClassDef, ast.Lambda))]:
+            for field in ("body", "orelse", "finalbody"):
+                stmts = getattr(parent, field, None)
+                if not isinstance(stmts, list):
+                    continue
+                i = 0
+                while i < len(stmts):
+                    s_ = stmts[i]
+                    if isinstance(s_, ast.Assign) and len(s_.targets) == 1 and isinstance(s_.targets[0], (ast.Tuple, ast.List)) and isinstance(s_.value, (ast.Tuple, ast.List)) and all(isinstance(t, ast.Name) and t.id not in frozen for t in s_.targets[0].elts):
+                        parts = _split_parallel(s_.targets[0], s_.value)
+                        if len(parts) > 1 or (len(parts) == 1 and isinstance(parts[0].targets[0], ast.Name)):
+                            parts = [_relocate(x, s_) for x in parts]
+                            stmts[i : i + 1] = parts
+                            self.log.append(f"{q}: tuple assignment of new names split")
+                            i += len(parts)
+                            continue
+                    i += 1
+
     def _loops_to_comprehensions(self, q: str, node):
         """`x = []` / `for t in it: [if c:] x.append(e)`  ->  `x = [e for t in it if c]` when the loop variable is
         not a local of the reference function (the loop is new)"""
@@ -678,10 +699,12 @@ class ModuleNormalizer:
                     v = s.targets[0].id
                     e = s.value
                     # copy coalescing: `x = y_new` where both are bound once -> y_new is x
-                    if isinstance(e, ast.Name) and e.id not in frozen and e.id not in params and len(stores.get(e.id, [])) == 1 and len(stores.get(v, [])) == 1 and v not in params:
+                    if isinstance(e, ast.Name) and e.id not in frozen and e.id not in params and len(stores.get(e.id, [])) >= 1 and len(stores.get(v, [])) == 1 and v not in params:
                         order = {id(n): k for k, n in enumerate(_preorder(node))}
                         used_before = any(isinstance(n, ast.Name) and n.id == v and n is not s.targets[0] and order[id(n)] < order[id(s)] for n in ast.walk(node))
-                        if not used_before:
+                        y_after = any(isinstance(n, ast.Name) and n.id == e.id and n is not e and order[id(n)] > order[id(s)] for n in ast.walk(node))
+                        in_loop = any(isinstance(p_, (ast.For, ast.While)) and any(x is s for x in ast.walk(p_)) for p_ in ast.walk(node))
+                        if not used_before and not y_after and not in_loop:
                             _Rename({e.id: v}).visit(node)
                             del stmts[i]
                             if not stmts:
